@@ -91,6 +91,34 @@ def run_hv(mode, in_path, out_path, args=(), timeout=3600, env=None):
     return time.time() - t0
 
 
+def run_hv_split(mode, in_path, out_path, parts=6, args=(), timeout=3600, env=None):
+    """run_hv with the request lines dealt round-robin to `parts` harness processes running side by side (each request line is
+    independent; a process has its own hook recorder and clock).  Output lines are concatenated."""
+    with open(in_path) as f:
+        lines = [l for l in f if l.strip()]
+    if len(lines) < parts * 4:
+        return run_hv(mode, in_path, out_path, args, timeout, env)
+    import concurrent.futures
+    t0 = time.time()
+    ins = []
+    for k in range(parts):
+        pi = "%s.part%d" % (in_path, k)
+        with open(pi, "w") as f:
+            f.writelines(lines[k::parts])
+        ins.append(pi)
+    with concurrent.futures.ThreadPoolExecutor(parts) as ex:
+        futs = [ex.submit(run_hv, mode, pi, pi + ".out", args, timeout, env) for pi in ins]
+        for fu in futs:
+            fu.result()
+    with open(out_path, "wb") as fo:
+        for pi in ins:
+            with open(pi + ".out", "rb") as f:
+                fo.write(f.read())
+            os.remove(pi)
+            os.remove(pi + ".out")
+    return time.time() - t0
+
+
 def read_ndjson(path):
     with open(path) as f:
         for line in f:
